@@ -9,6 +9,8 @@
 //	nodequery  Query custom/pos/validator|validators|signingInfos|account..., custom/auth, custom/gov
 //	dispatch   PocketCoreApp.HandleDispatch (the RPC path: app.NewContext(latest))
 //	qdispatch  Query custom/pocketcore/dispatch at historical and latest heights
+//	simulate   Query app/simulate of transactions that are VALID against the current state and write
+//	           cached records: application edit-stake / stake, node edit-stake, unjail
 //	none       nothing
 //
 // Histories are made cache-sensitive: application edit-stakes up and down around the current stake,
@@ -20,13 +22,10 @@
 package main
 
 import (
-	"crypto/sha256"
-	"encoding/hex"
 	"flag"
 	"fmt"
 	"os"
 	"runtime/debug"
-	"sort"
 	"strings"
 	"sync"
 	"time"
@@ -44,7 +43,7 @@ import (
 	"verifharness/internal/gen"
 )
 
-var kinds = []string{"appquery", "dispatch", "qdispatch", "nodequery", "appquery", "dispatch", "qdispatch", "none"}
+var kinds = []string{"appquery", "simulate", "dispatch", "qdispatch", "nodequery", "simulate", "appquery", "none"}
 
 const chainID = "verif"
 
@@ -162,10 +161,11 @@ func (e *env) extraTxs(r *gen.R, height int64, ent *int64) ([][]byte, []string) 
 }
 
 type actor struct {
-	e     *env
-	kind  string
-	r     *gen.R
-	nActs int
+	e      *env
+	kind   string
+	r      *gen.R
+	nActs  int
+	simEnt int64
 }
 
 
@@ -224,7 +224,7 @@ func (a *actor) act(point string, i int) {
 			}
 			desc = fmt.Sprintf("%s:%s@%d", strings.TrimPrefix(rt.Path, "custom/application/"), ad.String()[:8], h)
 			if rt.Path == "custom/application/application" {
-				extra = fmt.Sprintf(" key=%s ver=%s pre=%s", ad.String()[:8], versionRecord(n, h, ad), cacheDump(n))
+				extra = fmt.Sprintf(" key=%s ver=%s pre=%s", ad.String()[:8], versionRecord(n, h, ad), chainx.AppCacheDump(n))
 			}
 			code = query(n, abci.RequestQuery{Path: rt.Path, Data: rt.Data, Height: h})
 		case "nodequery":
@@ -257,6 +257,28 @@ func (a *actor) act(point string, i int) {
 					code = fmt.Sprintf("ok:s%d:n%d", res.Session.SessionHeader.SessionBlockHeight, len(res.Session.SessionNodes))
 				}
 			}()
+		case "simulate":
+			a.simEnt++
+			ent := 900000000 + a.simEnt
+			var bz []byte
+			switch r.Intn(4) {
+			case 0, 1: // application edit-stake above whatever the current stake can be
+				k := a.e.w.Apps[r.Intn(len(a.e.w.Apps))]
+				amt := baseAppStake + int64(6+r.Intn(4))*1000000
+				bz, desc = chain.SignTx(chainID, k, chain.MsgAppStake(k, amt, []string{chain.ChainHash}), chain.DefaultFee, ent, ""), fmt.Sprintf("appedit:%s:%d", k.Addr.String()[:8], amt)
+			case 2: // a funded account stakes a new application
+				k := a.e.w.Accts[r.Intn(len(a.e.w.Accts))]
+				bz, desc = chain.SignTx(chainID, k, chain.MsgAppStake(k, baseAppStake, []string{chain.ChainHash}), chain.DefaultFee, ent, ""), "appstake:"+k.Addr.String()[:8]
+			default: // node edit-stake into the highest bin
+				ks := append(append([]chain.Key{}, a.e.w.Vals...), a.e.w.Servs...)
+				k := ks[r.Intn(len(ks))]
+				if r.Bool() {
+					bz, desc = chain.SignTx(chainID, k, chain.MsgNodeStake(k, a.e.w.MinStake*5, []string{chain.ChainHash}, "https://n.example:443", k.Addr, nil), chain.DefaultFee, ent, ""), "nodeedit:"+k.Addr.String()[:8]
+				} else {
+					bz, desc = chain.SignTx(chainID, k, chain.MsgNodeUnjail(k.Addr, k.Addr), chain.DefaultFee, ent, ""), "unjail:"+k.Addr.String()[:8]
+				}
+			}
+			code = query(n, abci.RequestQuery{Path: "app/simulate", Data: bz, Height: n.Height})
 		case "qdispatch":
 			h := a.heights()
 			app := a.e.w.Apps[r.Intn(len(a.e.w.Apps))]
@@ -264,52 +286,9 @@ func (a *actor) act(point string, i int) {
 			desc = fmt.Sprintf("qdispatch:%s@%d", app.Addr.String()[:8], h)
 			code = query(n, abci.RequestQuery{Path: rt.Path, Data: rt.Data, Height: h})
 		}
-		fmt.Printf("act %s %s %s => code=%s cap=%d%s post=%s store=%s\n", a.kind, point, desc, code, a.e.c.cacheCap, extra, cacheDump(n), storeDump(n))
+		fmt.Printf("act %s %s %s => code=%s cap=%d%s post=%s store=%s\n", a.kind, point, desc, code, a.e.c.cacheCap, extra, chainx.AppCacheDump(n), chainx.AppStoreDump(n))
 		a.nActs++
 	}
-}
-
-// appDigest is a short canonical digest of an application record.
-func appDigest(a appsTypes.Application) string {
-	h := sha256.Sum256([]byte(fmt.Sprintf("%d/%v/%s/%s/%s/%d", a.Status, a.Jailed, a.StakedTokens, a.MaxRelays, strings.Join(a.Chains, ","), a.UnstakingCompletionTime.UnixNano())))
-	return hex.EncodeToString(h[:4])
-}
-
-// cacheDump renders the REAL ApplicationCache, most recently used first ("addr8:digest,...").
-func cacheDump(n *chain.Node) string {
-	k := n.App.VerifAppsKeeper()
-	keys := k.ApplicationCache.Keys() // oldest first
-	var ps []string
-	for i := len(keys) - 1; i >= 0; i-- {
-		ks, _ := keys[i].(string)
-		v, ok := k.ApplicationCache.Peek(ks)
-		if !ok {
-			continue
-		}
-		ap, ok := v.(appsTypes.Application)
-		if !ok {
-			ps = append(ps, ks[:8]+":badtype")
-			continue
-		}
-		ps = append(ps, ks[:8]+":"+appDigest(ap))
-	}
-	if len(ps) == 0 {
-		return "-"
-	}
-	return strings.Join(ps, ",")
-}
-
-// storeDump renders the application records of the working store (iteration, no cache involved).
-func storeDump(n *chain.Node) string {
-	var ps []string
-	for _, ap := range n.App.VerifAppsKeeper().GetAllApplications(n.Ctx()) {
-		ps = append(ps, ap.Address.String()[:8]+":"+appDigest(ap))
-	}
-	sort.Strings(ps)
-	if len(ps) == 0 {
-		return "-"
-	}
-	return strings.Join(ps, ",")
 }
 
 // versionRecord reads the application record of addr at a committed height (0 = latest) through a
@@ -332,7 +311,7 @@ func versionRecord(n *chain.Node, height int64, addr sdk.Address) (d string) {
 	if !found {
 		return "-"
 	}
-	return appDigest(ap)
+	return chainx.AppDigest(ap)
 }
 
 // probe tells which query context the code under test builds: after a restart a custom application
@@ -347,10 +326,10 @@ func probe() {
 	e.restart()
 	n := e.run.N
 	ad := e.w.Apps[0].Addr
-	pre := cacheDump(n)
+	pre := chainx.AppCacheDump(n)
 	rt := chainx.AppRoutes(ad)[0]
 	code := query(n, abci.RequestQuery{Path: rt.Path, Data: rt.Data, Height: 2})
-	post := cacheDump(n)
+	post := chainx.AppCacheDump(n)
 	mode := "unknown"
 	switch {
 	case code != "0" || pre != "-":
@@ -410,7 +389,7 @@ func twin(role string, c cfg, histPath string) {
 		}
 		fmt.Printf("blk %d %s => %x %s %s %s %s\n", res.Height, kd, res.AppHash, chainx.Codes(res), chainx.ValUpdates(res), chainx.StateDigest(st), chainx.RawDigest(n))
 		// runtime monitor of the coherence invariant after block execution (both twins)
-		fmt.Printf("coh %d => cap=%d post=%s store=%s\n", res.Height, c.cacheCap, cacheDump(n), storeDump(n))
+		fmt.Printf("coh %d => cap=%d post=%s store=%s\n", res.Height, c.cacheCap, chainx.AppCacheDump(n), chainx.AppStoreDump(n))
 		if c.restarts > 0 && (bi+1)%c.restarts == 0 {
 			e.restart()
 			fmt.Printf("restart %d\n", res.Height)
